@@ -235,10 +235,24 @@ def overlay(prog, rep):
     defs1 = local_defs(lc, norm(c.args[1])) if isinstance(c.args[1], ast.Name) else []
     vals1 = sorted(norm(d.value) for d in defs1 if isinstance(d, ast.Assign))
     ok1 = len(vals1) == 2 and any(v in ("dict()", "{}") for v in vals1) and any(v.startswith("tomlkit.parse(") for v in vals1)
+    early_defaults = False
+    if not ok1:
+        # the first-run branch may hand back the parsed defaults themselves (_merge(defaults, {}) is the defaults): then the one
+        # call of _merge takes the parsed user file, directly or through a local bound once
+        a1 = c.args[1]
+        v1 = a1 if not isinstance(a1, ast.Name) else (defs1[0].value if len(defs1) == 1 and isinstance(defs1[0], ast.Assign) else None)
+        if isinstance(v1, ast.Call) and norm(v1.func) == "tomlkit.parse" and len(v1.args) == 1:
+            erets = [r for r in walk_own(lc.node) if isinstance(r, ast.Return) and r.value is not None and norm(r.value) == norm(c.args[0])]
+            early_defaults = bool(erets)
+            ok1 = early_defaults
+            defs1 = [ast.copy_location(ast.Assign(targets=[ast.Name(id="<user>", ctx=ast.Store())], value=v1), v1)]
+            vals1 = [norm(v1), "<defaults returned on first run>"]
     rep.check(ok0 and ok1, "OVERLAY", lc.short, "_merge(defaults, user)", f"_merge({norm(c.args[0])}, {norm(c.args[1])})", f"_merge is called with ({norm(c.args[0])} := {norm(d0) if d0 is not None else '?'}, {norm(c.args[1])} := {vals1}): the defaults must be the first (overlaid) argument and the user's file the second", lc.loc(c))
     rets = [n for n in walk_own(lc.node) if isinstance(n, ast.Return)]
     asg = [n for n in walk_own(lc.node) if isinstance(n, ast.Assign) and n.value is c]
     okr = len(rets) == 1 and ((asg and norm(rets[0].value) == norm(asg[0].targets[0])) or rets[0].value is c)
+    if not okr and early_defaults:
+        okr = all(r.value is c or (asg and norm(r.value) == norm(asg[0].targets[0])) or norm(r.value) == norm(c.args[0]) for r in rets if r.value is not None) and any(r.value is c or (asg and norm(r.value) == norm(asg[0].targets[0])) for r in rets)
     rep.check(bool(okr), "OVERLAY", lc.short, "return", "returns the merge result", "load_config_toml does not return the overlaid configuration", lc.loc())
     # what is parsed on the exists branch is the file's content
     g = cfg_of(lc)
@@ -248,6 +262,11 @@ def overlay(prog, rep):
             src_def = single_def(lc, norm(arg)) if isinstance(arg, ast.Name) else None
             multi = local_defs(lc, norm(arg)) if isinstance(arg, ast.Name) else []
             okf = any(isinstance(x, ast.Assign) and norm(x.value) == "f.read()" for x in multi)
+            # the file's text read in one expression: Path(<config path>).read_text() / open(<config path>).read()
+            ta_ = norm(arg)
+            pth_ = [norm(x.args[0]) for x in walk_own(lc.node) if isinstance(x, ast.Call) and norm(x.func) in ("os.path.isfile", "os.path.exists") and x.args]
+            if not okf and pth_ and ta_ in (f"Path({pth_[0]}).read_text()", f"pathlib.Path({pth_[0]}).read_text()", f"open({pth_[0]}).read()", f"Path({pth_[0]}).read_text(encoding='utf-8')"):
+                okf = True
             rep.check(okf, "OVERLAY", lc.short, "user document", "parsed from the file's content", f"the user document is parsed from `{norm(arg)}`, which is not the file's content", lc.loc(d))
 
 
